@@ -21,7 +21,7 @@ TRUSTED = ["callbacks raise Exception subclasses (BaseException from a callback 
            "MemoryError/RecursionError inside eliot's own frames and warnings-as-errors are outside the model"]
 ASSUMPTIONS = ["field names are valid Python keyword names not colliding with the API's own parameter names"]
 EXPLANATION = "app_outcome_unchanged for every environment by mutual structural induction; handler structure tied to the source by skeleton E5"
-PROFILE = dict(p_dest_fail=0.4, p_ser_fail=0.35, p_typed=0.5, p_ext_fail=0.6, p_extractor=0.7, p_str_raises=0.4, p_missing_field=0.15,
+PROFILE = dict(p_ext_reserved=0.25, p_dest_fail=0.4, p_ser_fail=0.35, p_typed=0.5, p_ext_fail=0.6, p_extractor=0.7, p_str_raises=0.4, p_missing_field=0.15,
                p_raise=0.45, n_dests=(1, 3))
 
 
